@@ -30,6 +30,7 @@ RULES_DOC["X5"] = common.X5_DOC
 RULES_DOC["R8"] = "rank list insertion: on every path of xstream_add_xstream_list the inserted stream's forward link is assigned, and its backward link is assigned unless it becomes the head (a stream re-inserted by ABT_xstream_set_rank carries no stale link: no cycle, no walk into freed memory)"
 RULES_DOC["R9"] = "= C06.R1/R3/R4: the callback that suspends a ULT for a main-scheduler replacement counts it on the pool it belongs to after request handling (a stream whose pool count is off by one can never be joined, its rank is never returned)"
 RULES_DOC["R12"] = "= C12.R4: reviving a stream (its main-scheduler ULT) clears the whole request word: a cancel / exit request left from the previous life does not terminate the revived stream at its first event check"
+RULES_DOC["R13"] = "reviving a stream clears the whole request word of its main scheduler: on every path of ABT_xstream_revive that reaches ABTI_thread_revive, ABTI_sched::request was stored 0 (or and-ed with a mask that keeps neither FINISH nor EXIT nor REPLACE); a bit left from ABT_sched_exit / ABT_sched_finish in the previous life would stop the revived scheduler at its first stop test, and a second join never returns"
 RULES_DOC["R11"] = "user-supplied ranks are non-negative: ABT_xstream_set_rank and ABT_xstream_create_with_rank reach the list update only when the governing argument tests admit 0, 1, ... and reject -1 (the internal any-rank value) and below"
 RULES_DOC["R10"] = "the thread-local 'current stream' pointer is cleared wherever the stream it names is given up: after ABT_finalize freed the primary stream, and when a stream's OS thread leaves its root loop (an OS thread that once was a stream must be an external thread afterwards)"
 RULES_DOC.update({
@@ -557,6 +558,46 @@ def rule_R11(P, rep):
     rep.need(n >= 2, "only %d user-rank entry points" % n)
 
 
+def rule_R13(P, rep):
+    F = P.fn("ABT_xstream_revive", "src/stream.c", flat=True)
+    bits = 0
+    for m in ("ABTI_SCHED_REQ_FINISH", "ABTI_SCHED_REQ_EXIT", "ABTI_SCHED_REQ_REPLACE"):
+        from .C03 import _macro_value
+        v = _macro_value(P, m)
+        rep.need(v is not None, "macro %s not found" % m)
+        bits |= v or 0
+    sel = seq.Sel(calls={"ABTI_thread_revive"}, fields={"request"}, canon=True)
+    n = 0
+    for toks, kind, rv, rtxt in seq.sequences(F, sel, max_repeat=1, max_len=40):
+        rv_i = idx(toks, is_call("ABTI_thread_revive"))
+        if not rv_i:
+            continue
+        n += 1
+        cleared = False
+        why = []
+        for t in toks[:rv_i[0]] + toks[rv_i[0]:]:
+            if t[0] == "st" and t[1] == "ABTI_sched::request":
+                cleared = cleared or (t[2] == "=" and t[3] == 0)
+            if t[0] != "ast" or t[2] != "ABTI_sched::request":
+                continue
+            nd = F.nodes[t[4]]
+            if "_store_" in t[1]:
+                cleared = cleared or t[3] == 0
+            elif "fetch_and" in t[1]:
+                mask = common.const_eval(F, nd["a"][-1])
+                if mask is None and isinstance(t[3], int):
+                    mask = t[3]
+                if mask is not None and (mask & bits) == 0:
+                    cleared = True
+                else:
+                    why.append("%s keeps request bits 0x%x" % (t[1], (mask & bits) if mask is not None else bits))
+        if not cleared:
+            why.append("the main scheduler's request word is not reset to 0")
+        rep.ob("R13", "ABT_xstream_revive resets the main scheduler's request word [%s]" % show(toks)[:200], not why,
+               "; ".join(why), loc="%s:%d" % (F.file, F.line), site="revive/sched-request")
+    rep.need(n >= 1, "ABT_xstream_revive never reaches ABTI_thread_revive")
+
+
 def run(P, rep, tier):
     common.rule_X9(P, rep, fields=[('ABTI_sched', 'request')])
     common.rule_X8(P, rep)
@@ -575,3 +616,4 @@ def run(P, rep, tier):
     rule_R11(P, rep)
     from . import C12
     common.borrow(rep, P, C12.rule_R4, "R12")
+    rule_R13(P, rep)
